@@ -377,7 +377,21 @@ func (t *runner) genCIDMap(csr charcode.CodeSpaceRange, runs, maxLen int) map[ch
 }
 
 var baseRunes = []rune{'A', 'z', 0x7F, 0xFF, 0x100, 0x7FF, 0x800, 0xD7FC, 0xD7FD, 0xD7FE, 0xD7FF, 0xE000, 0xE001,
-	0xFFFB, 0xFFFC, 0xFFFD, 0xFFFE, 0xFFFF, 0x10000, 0x1F600, 0x10FFFC, 0x10FFFD, 0x10FFFE, 0x10FFFF}
+	0xFFFB, 0xFFFC, 0xFFFD, 0xFFFE, 0xFFFF, 0x10000, 0x1F600, 0x10FFFC, 0x10FFFD, 0x10FFFE, 0x10FFFF,
+	0x0000, 0x0301, 0xFEFD, 0xFEFF, 0xFEFF}
+
+// specialRunes: code points that text decoders like to treat specially (byte order mark and its mirror,
+// replacement character, NUL, the ends of the planes and of the surrogate gap, a combining mark)
+var specialRunes = []rune{0xFEFF, 0xFFFE, 0xFFFD, 0x0000, 0xD7FF, 0xE000, 0xFFFF, 0x10000, 0x10FFFF, 0x0301}
+
+// textRune: a rune for the first / middle positions of a text value
+func (t *runner) textRune() rune {
+	r := t.e.Rand
+	if r.IntN(3) == 0 {
+		return specialRunes[r.IntN(len(specialRunes))]
+	}
+	return baseRunes[r.IntN(len(baseRunes))]
+}
 
 func validRune(x rune) bool { return x >= 0 && (x < 0xD800 || (x >= 0xE000 && x <= 0x10FFFF)) }
 
@@ -388,7 +402,7 @@ func (t *runner) genTUMap(csr charcode.CodeSpaceRange, runs, maxLen int) map[cha
 		codes := t.genRunCodes(csr, maxLen)
 		var prefix []rune
 		for k := r.IntN(4); k > 1; k-- { // 0,0,1,2 runes of prefix
-			prefix = append(prefix, baseRunes[r.IntN(len(baseRunes))])
+			prefix = append(prefix, t.textRune())
 		}
 		var last rune
 		if r.IntN(3) > 0 {
@@ -408,7 +422,7 @@ func (t *runner) genTUMap(csr charcode.CodeSpaceRange, runs, maxLen int) map[cha
 			}
 			s := string(append(append([]rune{}, prefix...), x))
 			if middle && j > 0 && r.IntN(3) == 0 {
-				s = string(append(append(append([]rune{}, prefix...), baseRunes[r.IntN(len(baseRunes))]), x))
+				s = string(append(append(append([]rune{}, prefix...), t.textRune()), x))
 			}
 			if empty {
 				s = ""
@@ -1455,7 +1469,7 @@ func (t *runner) genRaw(text bool) *rawCase {
 				nv = r.IntN(cnt + 2)
 			}
 			for k := 0; k < nv; k++ {
-				rr.Values = append(rr.Values, string([]rune{baseRunes[r.IntN(len(baseRunes))], baseRunes[r.IntN(len(baseRunes))]}[r.IntN(2):]))
+				rr.Values = append(rr.Values, string([]rune{t.textRune(), baseRunes[r.IntN(len(baseRunes))]}[r.IntN(2):]))
 			}
 		}
 		rc.Ranges = append(rc.Ranges, rr)
@@ -1661,6 +1675,13 @@ func (t *runner) corpus() {
 		{0x41: "\uD7FF", 0x42: "\uFFFD", 0x43: "\uFFFD"},
 		{0x41: "", 0x42: "", 0x43: "x", 0x44: ""},
 		{0xFE: "a", 0xFF: "b", 0x00: "c"},
+		// special code points at the first / middle / last position, in bfchar, bfrange base and bfrange lists
+		{0x41: "\uFEFFa", 0x42: "\uFEFFb", 0x43: "\uFEFFc", 0x50: "\uFEFF", 0x52: "x\uFEFFy", 0x54: "\uFEFF\uFEFF"},
+		{0x41: "\uFEFFx", 0x42: "q", 0x43: "\uFEFF\u0301", 0x44: "\uFFFE\uFEFF", 0x45: "a\uFEFF"},
+		{0x41: "\x00a", 0x42: "\x00b", 0x43: "\x00c", 0x50: "\x00", 0x51: "\x01", 0x60: "a\x00b"},
+		{0x41: "\uFFFEa", 0x42: "\uFFFEb", 0x50: "\uFFFD\uFFFD", 0x51: "\uFFFD\uFFFE", 0x52: "\uFFFD\uFFFF", 0x53: "\uFFFD\U00010000"},
+		{0x41: "\uD7FFz", 0x42: "\uE000z", 0x43: "\uFFFFz", 0x44: "\U00010000z", 0x45: "\U0010FFFFz", 0x46: "e\u0301", 0x47: "\u0301"},
+		{0x41: "\uFEFD", 0x42: "\uFEFE", 0x43: "\uFEFF", 0x44: "\uFF00", 0x50: "\U0010FFFF\uFEFE", 0x51: "\U0010FFFF\uFEFF"},
 		// same first runes and consecutive last runes, but something else in between
 		{0x41: "ab", 0x42: "aXc", 0x43: "ad"},
 		{0x41: "b", 0x42: "Xc", 0x43: "d", 0x44: "e"},
